@@ -500,6 +500,25 @@ class Unit(Translator):
             return '(%s = (%s *)malloc(sizeof(%s)), *%s = %s, %s)' % (tmp, cty, cty, tmp, P.ex(inner[-1]), tmp)
         return '(%s = (%s *)malloc(sizeof(%s)), %s)' % (tmp, cty, cty, tmp)
 
+    def name_lambdas(self, cname):
+        """gives the lambdas written in function cname their C names (cname__lambdaK, document order) and closure types without
+        translating cname itself; lambdas whose call operator is a template (generic lambdas) are skipped"""
+        F = self.fn_by_cname[cname]
+        class FakeP:
+            def __init__(s): s.cname = cname; s.k = 0
+            def ex(s, x): return '0'
+            def addr(s, x): return '0'
+            def new_temp(s, f): s.k += 1; return '__unused%d' % s.k
+        P = FakeP()
+        def walk(n):
+            if not isinstance(n, dict): return
+            if n.get('kind') == 'LambdaExpr':
+                try: self.lambda_expr(P, n)
+                except Unsupported: pass
+                return
+            for c in n.get('inner', []) or []: walk(c)
+        walk(F)
+
     def lambda_expr(self, P, n, as_stdfn=False):
         """lambda -> static C function.  Capture-less lambdas used as plain callables yield the function designator; when a
         lambda is converted to std::function (or has captures) the function takes the closure object as first parameter and
@@ -547,7 +566,7 @@ class Unit(Translator):
             vals.append(P.addr(x) if byref else P.ex(ie))
         gt = 'struct %s { %s };' % (cl, ' '.join(decls) if decls else 'char __empty;')
         if gt not in self.generated_types: self.generated_types.append(gt)
-        op['_lambda_free'] = True; op['_lambda_env'] = (cl, caps)
+        op['_lambda_free'] = True; op['_lambda_env'] = (cl, caps); op['_closure_decl'] = gt
         self.fn_by_cname[cn] = op; self.cname_of[op['id']] = cn
         self.srcinfo[cn] = self._src_range(op)
         if not any(x['id'] == op['id'] for x in self.fn_nodes): self.fn_nodes.append(op)
@@ -637,6 +656,8 @@ class Unit(Translator):
     def translate(self, roots):
         """roots: list of cnames to translate (with transitive callees)"""
         for c in roots:
+            gt = self.fn_by_cname[c].get('_closure_decl')
+            if gt and gt not in self.generated_types: self.generated_types.append(gt)
             self.want_fn(self.fn_by_cname[c]['id'])
         i = 0
         while i < len(self.need_fns):
